@@ -129,7 +129,8 @@ func implSeq(args []string) string {
 					to = 70 * time.Millisecond
 				}
 			}
-			calls[i].ch = s.Call(phone, uint16(cmd), []byte{byte(i)}, to)
+			// body lengths 1, 0, 2, 1000, 1022, 1023 in turn (1023 = the largest body a frame carries), every other long one escape-dense
+			calls[i].ch = s.Call(phone, uint16(cmd), WBody([]byte{byte(i)}, []int{1, 0, 2, 1000, 1022, 1023}[i%6], i%2 == 1), to)
 		case "x":
 			t.Close()
 			closed = true
@@ -449,7 +450,7 @@ func replayBatch(par int, jobs []string) string {
 }
 
 func c12(c *Ctx) {
-	c.Rule = "sequential scripts (wseq): random scripts of heartbeats, commands (7 command ids + 0x9003 + 3 ids without an entry in the handler table), responses of the 5 echoing types in any order, duplicates, unknown serials, unparsable bodies, 0x1003, timeouts, disconnect, executed step by step on a live server and compared token by token with the model; concurrent scenarios (wexp): 1..8 callers (one command in five, and every command of kind nohandler, has no entry in the handler table; kind emptykey-close: a terminal whose KeyFunc result is the empty key) with timeouts 5-600 ms, none, and 0 = the 3 s default, against a scripted terminal (answers delayed/late/twice/unknown/unparsable/never/in 2-4 sub-packages (long 0x1205 0x0805 0x0104 and short bodies cut up, a heartbeat in between and after), 5-8 answers in one TCP segment, heartbeats and location reports in between, serial wrap at 65535, 0x8003 frames and a stalled transfer through reissuePackChan, close/RST/garbage; some batches with user callbacks that sleep 1-15 ms; the witnesses of the findings serial-reuse (both variants) and blocked-write, each in a server of its own), the recorded history must be explained by a schedule of the model and pass the direct oracle; the server runs in child processes (a crash is an observation); a case is non-trivial when it contains at least one command written to the terminal; distinct = distinct request lines"
+	c.Rule = "sequential scripts (wseq): random scripts of heartbeats, commands (7 command ids + 0x9003 + 3 ids without an entry in the handler table), responses of the 5 echoing types in any order, duplicates, unknown serials, unparsable bodies, 0x1003, timeouts, disconnect, executed step by step on a live server and compared token by token with the model; concurrent scenarios (wexp): 1..8 callers (one command in five, and every command of kind nohandler, has no entry in the handler table; kind emptykey-close: a terminal whose KeyFunc result is the empty key) with command bodies of 0 to 1023 bytes (kind bodylen: 0/1/2/1000/1022/1023, plain and escape-dense; one command in six elsewhere has 1000/1022/1023 bytes; wseq: by call index) and timeouts 5-600 ms, none, and 0 = the 3 s default, against a scripted terminal (answers delayed/late/twice/unknown/unparsable/never/in 2-4 sub-packages (long 0x1205 0x0805 0x0104 and short bodies cut up, a heartbeat in between and after), 5-8 answers in one TCP segment, heartbeats and location reports in between, serial wrap at 65535, 0x8003 frames and a stalled transfer through reissuePackChan, close/RST/garbage; some batches with user callbacks that sleep 1-15 ms; the witnesses of the findings serial-reuse (both variants) and blocked-write, each in a server of its own), the recorded history must be explained by a schedule of the model and pass the direct oracle; the server runs in child processes (a crash is an observation); a case is non-trivial when it contains at least one command written to the terminal; distinct = distinct request lines"
 	// ---- jobs
 	nseq := 300
 	if !c.Quick() {
@@ -467,7 +468,7 @@ func c12(c *Ctx) {
 		g.script(6 + g.rng.Intn(14))
 		jobs = append(jobs, jobT{line: "op wseq 0 " + strings.Join(g.toks, " "), what: g.what})
 	}
-	kinds := []string{"nohandler", "nohandler", "garbage-close", "reissue", "frag", "frag", "burst", "burst", "order", "late", "dup", "unknown", "bad", "never", "mixed", "mixed", "attr", "notmo", "prejoin",
+	kinds := []string{"bodylen", "nohandler", "nohandler", "garbage-close", "reissue", "frag", "frag", "burst", "burst", "order", "late", "dup", "unknown", "bad", "never", "mixed", "mixed", "attr", "notmo", "prejoin",
 		"close-outstanding", "close-afterresp", "close-queued"}
 	per := 60
 	if !c.Quick() {
